@@ -295,7 +295,12 @@ func hostport(s string) (host, port string) {
 		// no port
 		return s, ""
 	}
-	return s[:n], s[n+1:]
+	host, port = s[:n], s[n+1:]
+	// like net.SplitHostPort: an IPv6 literal loses its brackets
+	if len(host) > 1 && host[0] == '[' && host[len(host)-1] == ']' {
+		host = host[1 : len(host)-1]
+	}
+	return host, port
 }
 
 // atoi is a replacement for strconv.Atoi/strconv.FormatInt
